@@ -10,7 +10,7 @@ CHECKS['C06'] = {
     'ready': False,
     'level': 'fault_enumeration',
     'level_text': 'parts 2 and 3 enumerate faults exhaustively per generated case (every cut byte of an index body x 4 transports x 3 '
-                  'readers; every request of a sweep x 6-7 fault kinds); part 1 explores generated scan histories',
+                  'readers; every request of a sweep x 7-8 fault kinds); part 1 explores generated scan histories',
     'technique': 'property-based testing (rapid) against a simulated collections table / stub keepstores, with exhaustive fault enumeration inside each case',
     'rule': 'paging: rapid-generated table (0-200 collections, tie groups incl. larger than the page, trashed/old-version rows), page size 0(max)/1..N+1, '
             'server-side page caps, and a schedule of modify/add/delete events applied between page requests; the real EachCollection scans a simulated list API; '
@@ -18,7 +18,7 @@ CHECKS['C06'] = {
             'index: generated well-formed index bodies (0-6 entries, second- and nanosecond mtimes), every cut point served over loopback HTTP in 4 transports to 3 readers; '
             'non-trivial = body has at least one entry. producer: real keepstore handler with 3 volumes, one of which fails IndexTo after j entries (optionally mid-line); '
             'non-trivial = a volume fails. sweep: generated world (2-4 keepstores, 1-2 mounts each, 3-8 blocks, 1-6 collections) for which a fault-free Balancer.Run sends '
-            'non-empty trash/pull lists (checked; otherwise discarded and counted as trivial); every request of the fault-free run x {500, connection error, 3 truncations, '
+            'non-empty trash/pull lists (checked; otherwise discarded and counted as trivial); every request of the fault-free run x {500, 500 with intact body, connection error, 3 truncations, '
             'malformed, interior blank line} is injected in a separate real Run. distinct = fingerprint of the generated table+schedule / body / volume plan / world.',
     'assumptions': [
         'the collections list API is simulated from its documented contract (filters, order, limit, count, include_trash, include_old_versions, select); the Rails implementation is not executed',
